@@ -83,6 +83,67 @@ func (t *vsT) kindPath() string {
 	return t.K
 }
 
+// hasOptEnum: an option of an enum somewhere in the type (any nesting).
+func (t *vsT) hasOptEnum() bool {
+	if t == nil {
+		return false
+	}
+	if t.K == "opt" && t.T.K == "enum" {
+		return true
+	}
+	for _, c := range []*vsT{t.T, t.A, t.B, t.Kt, t.Vt} {
+		if c.hasOptEnum() {
+			return true
+		}
+	}
+	for _, f := range t.Fs {
+		if f.hasOptEnum() {
+			return true
+		}
+	}
+	for _, v := range t.Vs {
+		if v.T.hasOptEnum() {
+			return true
+		}
+	}
+	return false
+}
+
+// vsOnlyOptionBytesMissing: got is exp with some 0x01 bytes (option tags) deleted.  With a map in the
+// type (entry order is random) only the byte multisets are compared.
+func vsOnlyOptionBytesMissing(exp, got []byte, hasMap bool) bool {
+	if len(got) >= len(exp) {
+		return false
+	}
+	if hasMap {
+		var ce, cg [256]int
+		for _, b := range exp {
+			ce[b]++
+		}
+		for _, b := range got {
+			cg[b]++
+		}
+		for i := range ce {
+			if i != 1 && ce[i] != cg[i] {
+				return false
+			}
+		}
+		return ce[1] > cg[1]
+	}
+	// dp[j]: got[:j] obtainable from exp[:i]
+	dp := make([]bool, len(got)+1)
+	dp[0] = true
+	for i := 1; i <= len(exp); i++ {
+		nd := make([]bool, len(got)+1)
+		nd[0] = dp[0] && exp[i-1] == 1
+		for j := 1; j <= len(got); j++ {
+			nd[j] = (exp[i-1] == got[j-1] && dp[j-1]) || (exp[i-1] == 1 && dp[j])
+		}
+		dp = nd
+	}
+	return dp[len(got)]
+}
+
 func (t *vsT) hasKind(k string) bool {
 	if t == nil {
 		return false
@@ -693,7 +754,11 @@ func vsRunRT(res *vResult, bi, si int, c *vsCase, raw json.RawMessage) {
 		pm := vTry(func() { got, merr = Marshal(val.Interface()) })
 		res.Cmp()
 		if pm != "" {
-			res.Fail(bi, si, "rt", "Marshal", vHex(exp), pm, "C11/encode/panic/"+t.kindPath(), raw)
+			sig := "C11/encode/panic/" + t.kindPath()
+			if t.hasOptEnum() && strings.Contains(pm, "IndexValue called using nil") {
+				sig = "C11/encode/panic/opt-enum"
+			}
+			res.Fail(bi, si, "rt", "Marshal", vHex(exp), pm, sig, raw)
 			break
 		}
 		if merr != nil {
@@ -704,6 +769,8 @@ func vsRunRT(res *vResult, bi, si int, c *vsCase, raw json.RawMessage) {
 			sig := "C11/encode/bytes/" + t.kindPath()
 			if t.hasKind("map") && vsSameMultiset(got, exp) {
 				sig = "C11/encode/map-order"
+			} else if t.hasOptEnum() && vsOnlyOptionBytesMissing(exp, got, t.hasKind("map")) {
+				sig = "C11/encode/bytes/opt-enum"
 			}
 			res.Fail(bi, si, "rt", "Marshal", vHex(exp), vHex(got), sig, raw)
 			break
